@@ -109,6 +109,9 @@ def gen_model_header(dm: DataModel, backend, code_texts, strings):
         if not spec.singleton and spec.container in alltext:
             store_colls[spec.container] = TColl(spec.container, TObj(spec.elem_cls, spec.elem_p), 0)
     for n in classes:
+        if dm.smart_depth(n) > 0:
+            raise ReplayUnsupported(f"class {n} with deref_count semantics has no replay stub")
+    for n in classes:
         for other in classes:
             if other != n and other.startswith(n + "::"):
                 raise ReplayUnsupported(f"nested class {other}")
